@@ -118,6 +118,16 @@ func configs(thorough bool) []spec {
 			}
 		}
 	}
+	if !thorough {
+		// unequal agent counts across a power of two: the widths of the sender and receiver arbitration state differ
+		for _, mt := range []string{"LIFO", "FIFO"} {
+			for d := 1; d <= 2; d++ {
+				for _, sr := range [][2]int{{3, 1}, {3, 2}, {1, 3}, {2, 3}} {
+					out = append(out, spec{Kind: "matrix", MemType: mt, Depth: d, DataSize: 1, NS: sr[0], NR: sr[1], Domain: "full"})
+				}
+			}
+		}
+	}
 	// free-data variants: the Data input is unconstrained whenever the module must not sample it
 	for _, mt := range []string{"LIFO", "FIFO"} {
 		for d := 1; d <= maxDepth; d++ {
